@@ -315,6 +315,69 @@ pub fn run(run: &mut Run) {
         }
     }
 
+    // (f) errors reported by the visitor (macro arguments, optional syntax, literal ranges) in
+    //     every layout: each fragment is a token list; the gaps are filled with every uniform
+    //     separator, and with a line break in exactly one gap; the fragment is embedded in several
+    //     contexts, after non-ASCII text and on later lines (positions must stay inside the source)
+    run.sub("semantic-errors");
+    {
+        let frags: Vec<Vec<&str>> = vec![
+            vec!["has", "(", "1", ")"],
+            vec!["has", "(", "a", ")"],
+            vec!["has", "(", "a", "[", "0", "]", ")"],
+            vec!["has", "(", "f", "(", ")", ")"],
+            vec!["a", ".", "map", "(", "1", ",", "x", ")"],
+            vec!["a", ".", "map", "(", "b", ".", "c", ",", "x", ")"],
+            vec!["a", ".", "all", "(", "f", "(", ")", ",", "true", ")"],
+            vec!["a", ".", "exists", "(", "'s'", ",", "true", ")"],
+            vec!["a", ".", "exists_one", "(", "[", "x", "]", ",", "true", ")"],
+            vec!["a", ".", "filter", "(", "-", "x", ",", "true", ")"],
+            vec!["a", ".", "map", "(", "1", ",", "true", ",", "x", ")"],
+            vec!["a", ".", "?", "b"],
+            vec!["a", "[", "?", "0", "]"],
+            vec!["[", "?", "1", "]"],
+            vec!["{", "?", "1", ":", "2", "}"],
+            vec!["T", "{", "?", "f", ":", "1", "}"],
+            vec!["99999999999999999999"],
+            vec!["-", "9223372036854775809"],
+            vec!["18446744073709551616u"],
+            vec!["1e999"],
+            vec!["\"\\ud800\""],
+            vec!["'\\U00110000'"],
+            vec!["a", ".", "map", "(", "1", ",", "has", "(", "2", ")", ")"],
+            vec!["has", "(", "99999999999999999999", ")"],
+            vec!["[", "1e999", ",", "has", "(", "1", ")", ",", "a", ".", "?", "b", "]"],
+        ];
+        let seps = ["", " ", "\n", "\n\n", " \n ", "\r\n", "\t", " // c\n"];
+        let contexts: [(&str, &str); 10] = [("", ""), ("(", ")"), ("[", "]"), ("1 + ", ""), ("g(", ")"), ("", " ? 1 : 2"), ("'\u{e4}\u{1f600}' + ", ""), ("\n", ""), ("true &&\n", "\n|| false"), ("{'k':\n", "}")];
+        for f in frags.iter() {
+            let gaps = f.len() - 1;
+            let mut variants: Vec<String> = vec![];
+            for sep in seps.iter() {
+                variants.push(f.join(sep));
+            }
+            for g in 0..gaps {
+                for brk in ["\n", "\r\n", "\n  "] {
+                    let mut t = String::new();
+                    for (k, tok) in f.iter().enumerate() {
+                        t.push_str(tok);
+                        if k == g {
+                            t.push_str(brk);
+                        }
+                    }
+                    variants.push(t);
+                }
+            }
+            for v in variants.iter() {
+                for (pre, post) in contexts.iter() {
+                    if run.take() {
+                        judge(run, "semantic-errors", &format!("{}{}{}", pre, v, post));
+                    }
+                }
+            }
+        }
+    }
+
     // (d) nesting depth 1..32 of every nesting construct, balanced and with one closer removed
     run.sub("depth");
     let constructs: [(&str, &str, &str, &str); 14] = [
